@@ -116,5 +116,28 @@ impl Xerr {
     #[verifier::external_body] pub fn unbalanced_fn_builder() -> Xerr { unimplemented!() }
 }
 
+// bindings of the core word table (Rword)
+//@use corewords.fns State::load_core#w_if
+//@use corewords.fns State::load_core#w_else
+//@use corewords.fns State::load_core#w_then
+//@use corewords.fns State::load_core#w_case
+//@use corewords.fns State::load_core#w_of
+//@use corewords.fns State::load_core#w_endof
+//@use corewords.fns State::load_core#w_endcase
+//@use corewords.fns State::load_core#w_begin
+//@use corewords.fns State::load_core#w_while
+//@use corewords.fns State::load_core#w_until
+//@use corewords.fns State::load_core#w_break
+//@use corewords.fns State::load_core#w_repeat
+//@use corewords.fns State::load_core#w__x3b
+//@use corewords.fns State::load_core#w_local
+//@use corewords.fns State::load_core#w_var
+//@use corewords.fns State::load_core#w__bang
+//@use corewords.fns State::load_core#w_nil
+//@use corewords.fns State::load_core#w__x23_x28
+//@use corewords.fns State::load_core#w__x23_x29
+//@use corewords.fns State::load_core#w_do
+//@use corewords.fns State::load_core#w_loop
+
 } // verus!
 fn main() {}
